@@ -62,7 +62,23 @@ CmpClauses(e) ==
          \cup (IF e.gt # (e.sign < 0) THEN {"gt"} ELSE {})
          \cup (IF e.le # (e.sign >= 0) THEN {"le"} ELSE {})
          \cup (IF e.ge # (e.sign <= 0) THEN {"ge"} ELSE {})
+\* conversion between two single units one of which carries an offset (C06): through the reference units by the
+\* defining affine maps  ref = x * scale + offset  (fingerprint arithmetic is a ring homomorphism, so this is exact)
+Canon1(c) == ItemRes(c[1])[3]
+AffToRef(n, x) == FAdd(FMul(x, FpUnit(n)), FMul(Units[n].off, FDiv(FpUnit(n), Units[n].s)))
+\* root value of x [n]: (x * s_n + off_n) * Fp(ref_n)  where FpUnit(n) = s_n * Fp(ref_n)
+AffFromRoot(n, r) == FDiv(FAdd(r, FNeg(FMul(Units[n].off, FDiv(FpUnit(n), Units[n].s)))), FpUnit(n))
+OConvClauses(e) ==
+    IF ~(AllResolve(e.a) /\ AllResolve(e.b)) THEN {"resolve"}
+    ELSE LET na == Canon1(e.a)  nb == Canon1(e.b) IN
+         IF DimOf(e.a) # DimOf(e.b) THEN (IF e.res = "Dimensionality" THEN {} ELSE {"accepted-incompatible"})
+         ELSE IF (Units[na].isoffset /\ Units[nb].isdelta) \/ (Units[na].isdelta /\ Units[nb].isoffset)
+              THEN (IF e.res = "Dimensionality" THEN {} ELSE {"delta-offset-accepted"})       \* refused by design
+         ELSE IF e.res # "ok" THEN {"refused-compatible"}
+         ELSE IF ~(ExactUnit(na) /\ ExactUnit(nb)) THEN {}
+         ELSE IF ~FMatches(AffFromRoot(nb, AffToRef(na, FDiv(e.x[1], e.x[2]))), e.num, e.den) THEN {"affine-map"} ELSE {}
 Clauses(e) == CASE e.ev = "conv" -> ConvClauses(e)
+                [] e.ev = "oconv" -> OConvClauses(e)
                 [] e.ev = "cmp" -> CmpClauses(e)
                 [] e.ev = "dimspec" -> DimSpecClauses(e)
                 [] e.ev = "check" -> CheckClauses(e)
